@@ -44,6 +44,8 @@ func c19Faults() []c19fault {
 		{"illegal character in a tag", "{$x # 1}", true},
 		{"illegal character in a tag 2", "{1 ^ 2}", true},
 		{"stray closing brace in text", "oops } here", true},
+		{"stray closing brace ending the line", "}", true},
+		{"stray closing brace after text, ending the line", "tail text }", true},
 		{"unknown command", "{/blah}", true},
 		{"unknown command 2", "{\\q}", true},
 		{"malformed expression", "{1 + }", true},
@@ -63,28 +65,42 @@ func checkC19(c *Ctx) {
 	faults := c19Faults()
 	// ---- parse errors ----
 	for fi, lines := range files {
-		for _, eol := range []string{"\n", "\r\n"} {
-			for li := 0; li < len(lines); li++ {
+		for _, eolv := range []struct {
+			eol   string
+			final bool // the input ends with a line break
+		}{{"\n", true}, {"\r\n", true}, {"\n", false}} {
+			eol := eolv.eol
+			// li == len(lines): the fault is an extra line after the last one
+			for li := 0; li <= len(lines); li++ {
 				for _, f := range faults {
 					for _, where := range []string{"append", "replace"} {
 						if !c.Mine() {
 							continue
 						}
-						if inCommentRegion(lines, li) {
+						if li == len(lines) && where == "append" {
+							continue
+						}
+						if li < len(lines) && inCommentRegion(lines, li) {
 							continue // the fault would be comment text, or would change where a comment ends
 						}
 						mut := append([]string{}, lines...)
-						if where == "append" {
+						switch {
+						case li == len(lines):
+							mut = append(mut, f.insert)
+						case where == "append":
 							mut[li] = mut[li] + " " + f.insert
-						} else {
+						default:
 							mut[li] = f.insert
 						}
-						text := strings.Join(mut, eol) + eol
+						text := strings.Join(mut, eol)
+						if eolv.final {
+							text += eol
+						}
 						name := fmt.Sprintf("dir/file%d.soy", fi)
 						var perr error
 						v := vrt.Run(vrt.Options{Fuel: 5000000}, func() { _, perr = parse.SoyFile(name, text) })
 						cs := c19case{Kind: "parse", File: name, Text: text, Fault: f.name + " (" + where + ")", Line: li + 1, EOL: fmt.Sprintf("%q", eol)}
-						key := fmt.Sprintf("p%d|%q|%d|%s|%s", fi, eol, li, f.name, where)
+						key := fmt.Sprintf("p%d|%q|%v|%d|%s|%s", fi, eol, eolv.final, li, f.name, where)
 						if v.Panic != nil || v.Exhausted {
 							c.Observe(key, "panic/hang")
 							c.Violate("parser returns", "panic", "panic:"+f.name, cs, "error", fmt.Sprint(v.Panic, v.Exhausted))
@@ -105,6 +121,9 @@ func checkC19(c *Ctx) {
 						c.Observe(key, fmt.Sprintf("%s:%d", fp.File(), fp.Line()))
 						nlines := len(mut)
 						sig := f.name + ":" + where + ":" + lineClass(li, len(lines)) + ":" + fmt.Sprintf("%q", eol)
+						if !eolv.final {
+							sig += ":no final line break"
+						}
 						msg := perr.Error()
 						switch {
 						case fp.File() != name:
@@ -346,6 +365,8 @@ func lineClass(li, n int) string {
 		return "first line"
 	case li == n-1:
 		return "last line"
+	case li == n:
+		return "extra last line"
 	}
 	return "inner line"
 }
